@@ -675,6 +675,216 @@ def check_batch(ctx, kind, texts, label, stats):
                               no_input=True)
 
 
+# ----------------------------------------------------------------------------------------------
+# LSP leg: the last hop - what `samlang-cli lsp` publishes - against the library and against the text.
+# The JSON-RPC client and the binary build are builder-C10's (vlib/c10.py: build_cli, Lsp), used read-only.
+
+LSP_A = """import { Option } from std.option
+interface Shape { method area(): int method name(): Str }
+class Circle(val r: int) : Shape { method area(): int = this.r method name(): Str = "c" }
+class Util {
+  function twice(x: int): int = x + x
+  function opt(): Option<int> = Option.Some(1)
+  function <T> pick(a: T, b: T): T = a
+  function both(
+    first: int,
+    second: Str
+  ): int = first
+}
+"""
+LSP_B = """import { Shape, Circle, Util } from lib.A
+import { Option } from std.option
+import { List } from std.list
+class Square(val s: int) : Shape { method area(): int = this.s }
+class Main {
+  function f(): int = Util.twice("no")
+  function g(): Str = Util.opt()
+  function h(c: Circle): bool = c.area()
+  function dup(a: int, a: int): int = a
+  function k(o: Option<int>): int = o
+  function p(c: Circle): int = Util.pick(c, 1)
+  function q(): int = Util.both("x", 2)
+  function r(o: Option<int>): int = o.unwrapOr("s")
+  function t(l: List<int>): List<int> = l.cons("s")
+  function main(): unit = { let v = Util.twice(1); let w = v + 1; let _ = w; }
+}
+"""
+LSP_C = """import { Util } from lib.A
+class Other { function z(): bool = Util.twice(true) }
+"""
+
+
+def lsp_request(lsp, method, params, timeout=30):
+    lsp.send(method, params, request=True)
+    want = lsp.nid
+    while True:
+        m = lsp.read(timeout)
+        if m is None:
+            return None
+        if m.get("id") == want and "method" not in m:
+            return m.get("result")
+
+
+def gen_lsp_project(rng):
+    """random multi-module project: B's errors cite declarations in A (and std), with random layout"""
+    nfun = rng.range(2, 5)
+    funs, calls = [], []
+    for i in range(nfun):
+        ty = rng.pick(["int", "bool", "Str", "Option<int>"])
+        sep = rng.pick([" ", "\n    ", "\n\n  ", " /* c */ "])
+        funs.append(f"  function f{i}({sep}a{i}:{sep}{ty},{sep}b{i}: int{sep}): {ty} = a{i}")
+        wrong = {"int": '"s"', "bool": "1", "Str": "true", "Option<int>": "2"}[ty]
+        ret = rng.pick(["int", "bool", "Str"])
+        calls.append(f"  function c{i}(): {ret} ={rng.pick([' ', chr(10) + '    '])}Lib.f{i}({wrong}, {rng.pick(['1', 'true'])})")
+    a = "import { Option } from std.option\n" + rng.pick(["", "\n", "// header\n"]) + "class Lib {\n" + "\n".join(funs) + "\n}\n"
+    b = ("import { Lib } from " + "lib.A" + rng.pick(["", ";"]) + "\n" + rng.pick(["", "\n\n", "/* c\n */\n"]) + "class Main {\n" + "\n".join(calls)
+         + "\n  function same(x: int, x: int): int = x\n  function main(): unit = {}\n}\n")
+    return {"lib.A": a, "app.B": b}
+
+
+def lsp_project_check(ctx, binary, mods, label, stats, positions=40):
+    """One project: start the server, take the published diagnostics, compare with the library (`proj`) and the text;
+    then hover / definition / references over the wire at identifier positions."""
+    import tempfile, shutil, glob as _glob
+    from .c10 import Lsp
+    std = {"std." + os.path.basename(f)[:-4]: open(f, encoding="utf-8").read()
+           for f in sorted(_glob.glob(os.path.join(common.REPO, "std", "*.sam")))}
+    allmods = dict(std); allmods.update(mods)
+    rc, out, _ = common.run_exec(common.harness_bin(PROP), [], ["proj " + " ".join(f"{m} {hexs(t.encode())}" for m, t in allmods.items())])
+    if not out or not out[0].startswith("["):
+        return [f"library side failed: {(out or ['?'])[0][:100]}"]
+    expected = json.loads(out[0])
+    root = tempfile.mkdtemp(prefix="c14-lsp-", dir=common.SCRATCH_ROOT)
+    bad = []
+    try:
+        os.makedirs(os.path.join(root, "src"))
+        open(os.path.join(root, "sconfig.json"), "w").write('{"sourceDirectory": "src", "__dangerously_allow_libdef_shadowing__": true}')
+        lsp = Lsp(binary, os.path.realpath(root))
+        for m, t in allmods.items():
+            os.makedirs(os.path.dirname(lsp.path(m)), exist_ok=True)
+            open(lsp.path(m), "w", encoding="utf-8").write(t)
+        got = lsp.start()
+        if got is None:
+            lsp.close()
+            return ["samlang-cli lsp did not answer initialize/initialized"]
+        uri_of = {lsp.uri(m): m for m in allmods}
+        docs = {m: Doc(t.encode()) for m, t in allmods.items()}
+
+        def rng_of(r):
+            return (r["start"]["line"], r["start"]["character"], r["end"]["line"], r["end"]["character"])
+
+        def in_doc(m, sp):
+            d = docs[m]
+            a, b = d.offset(sp[0], sp[1]), d.offset(sp[2], sp[3])
+            return a is not None and b is not None and a <= b
+
+        # 1. every published diagnostic: uri + range of the main location and of every related location
+        pub = []
+        for uri, ds in got.items():
+            if uri not in uri_of:
+                bad.append(f"diagnostics published for {uri}, which is not a file of the project"); continue
+            for d in ds:
+                rel = []
+                for ri in d.get("relatedInformation") or []:
+                    ru, rr = ri["location"]["uri"], rng_of(ri["location"]["range"])
+                    if ru not in uri_of:
+                        bad.append(f"related location {ri['message']} of a diagnostic of {uri_of[uri]} points to {ru}: no such file in the project")
+                        continue
+                    if not in_doc(uri_of[ru], rr):
+                        bad.append(f"related location {ri['message']} of the diagnostic at {rng_of(d['range'])} of {uri_of[uri]} is published as "
+                                   f"{uri_of[ru]} {rr}: outside that document")
+                    rel.append((uri_of[ru], rr))
+                if not in_doc(uri_of[uri], rng_of(d["range"])):
+                    bad.append(f"diagnostic range {rng_of(d['range'])} lies outside {uri_of[uri]}")
+                pub.append((uri_of[uri], rng_of(d["range"]), tuple(rel)))
+        exp = []
+        for e in expected:
+            rel = tuple((r["module"], tuple(r["range"])) for r in e["refs"] if r["module"] in allmods)
+            exp.append((e["module"], tuple(e["range"]), rel))
+        stats["lsp_diags"] += len(pub)
+        stats["lsp_related"] += sum(len(r) for _, _, r in pub)
+        stats["lsp_related_cross"] += sum(1 for m, _, r in pub for rm, _ in r if rm != m)
+        if sorted(pub) != sorted(exp):
+            only_pub = [x for x in pub if x not in exp][:3]
+            only_exp = [x for x in exp if x not in pub][:3]
+            for x in only_pub:
+                # name the first differing related entry: that is the concrete misreport
+                cand = [y for y in exp if y[0] == x[0] and y[1] == x[1]]
+                if cand and cand[0][2] != x[2]:
+                    for i, (pr, er) in enumerate(zip(x[2], cand[0][2])):
+                        if pr != er:
+                            cov = docs[er[0]].data[docs[er[0]].offset(er[1][0], er[1][1]):docs[er[0]].offset(er[1][2], er[1][3])]
+                            bad.append(f"diagnostic of {x[0]} at {x[1]}: related location [{i}] is published as {pr[0]} {pr[1]} but the "
+                                       f"library reports {er[0]} {er[1]} (covering {cov[:30]!r})")
+                            break
+                    else:
+                        bad.append(f"diagnostic of {x[0]} at {x[1]}: {len(x[2])} related locations published, library has {len(cand[0][2])}")
+                else:
+                    bad.append(f"published diagnostic {x[0]} {x[1]} has no counterpart in the library's error set")
+            for y in only_exp:
+                if not any(x[0] == y[0] and x[1] == y[1] for x in pub):
+                    bad.append(f"library error {y[0]} {y[1]} was not published")
+        # 2. hover / definition / references over the wire: same exactness as the in-process services leg
+        for m, t in mods.items():
+            rc2, lx, _ = common.run_exec(common.harness_bin(PROP), [], ["lex " + hexs(t.encode())])
+            toks = []
+            for tk in (lx[0].split(" ")[1].split(";") if lx and lx[0].startswith("T ") and lx[0] != "T -" else []):
+                k, r = tk.split(":", 1)
+                h, sp = r.split("@")
+                if k in ("upper", "lower"):
+                    toks.append((parse_span(sp), unhex(h)))
+            step = max(1, len(toks) // positions)
+            for (l0, c0, l1, c1), name in toks[::step]:
+                for c in sorted({c0, c1 - 1}):
+                    stats["lsp_queries"] += 1
+                    pos = {"textDocument": {"uri": lsp.uri(m)}, "position": {"line": l0, "character": c}}
+                    h = lsp_request(lsp, "textDocument/hover", pos)
+                    if h and h.get("range") and rng_of(h["range"]) != (l0, c0, l1, c1):
+                        bad.append(f"LSP hover at {l0}.{c} of {m} on `{name.decode()}` answers the range {rng_of(h['range'])} instead of the "
+                                   f"identifier's span {(l0, c0, l1, c1)}")
+                d = lsp_request(lsp, "textDocument/definition", {"textDocument": {"uri": lsp.uri(m)}, "position": {"line": l0, "character": c0}})
+                for loc in ([d] if isinstance(d, dict) else d or []):
+                    if loc.get("uri") not in uri_of or not in_doc(uri_of[loc["uri"]], rng_of(loc["range"])):
+                        bad.append(f"LSP definition at {l0}.{c0} of {m}: {loc.get('uri')} {rng_of(loc['range'])} is not a range of a project file")
+                rf = lsp_request(lsp, "textDocument/references", {"textDocument": {"uri": lsp.uri(m)}, "position": {"line": l0, "character": c0},
+                                                                  "context": {"includeDeclaration": True}})
+                for loc in rf or []:
+                    if loc.get("uri") not in uri_of or not in_doc(uri_of[loc["uri"]], rng_of(loc["range"])):
+                        bad.append(f"LSP reference of `{name.decode()}` ({m} {l0}.{c0}): {loc.get('uri')} {rng_of(loc['range'])} is not a range of a project file")
+                        continue
+                    dd = docs[uri_of[loc["uri"]]]
+                    sp = rng_of(loc["range"])
+                    cov = dd.data[dd.offset(sp[0], sp[1]):dd.offset(sp[2], sp[3])]
+                    if cov != name:
+                        bad.append(f"LSP reference of `{name.decode()}` ({m} {l0}.{c0}): {uri_of[loc['uri']]} {sp} covers {cov[:30]!r}")
+        lsp.close()
+    finally:
+        shutil.rmtree(root, ignore_errors=True)
+    return bad[:10]
+
+
+def lsp_leg(ctx, stats):
+    from .c10 import build_cli
+    try:
+        binary = build_cli()
+    except common.BuildError as e:
+        ctx.violation("samlang-cli (LSP binary) no longer builds", {"broken": e.what, "log": e.log[-2000:]}, no_input=True)
+        return
+    for k in ("lsp_diags", "lsp_related", "lsp_related_cross", "lsp_queries", "lsp_projects"):
+        stats.setdefault(k, 0)
+    projects = [({"lib.A": LSP_A, "app.B": LSP_B, "C": LSP_C}, "deterministic project")]
+    r = ctx.rng.fork()
+    projects += [(gen_lsp_project(r.fork()), f"generated project seed={ctx.seed}") for _ in range(ctx.scale(3, 60))]
+    for mods, label in projects:
+        if ctx.violations:
+            break
+        stats["lsp_projects"] += 1
+        msgs = lsp_project_check(ctx, binary, mods, label, stats, positions=ctx.scale(25, 400))
+        if msgs:
+            ctx.violation("a position published over LSP is not faithful to the library / the text: " + "; ".join(msgs)[:400],
+                          {"protocol": "lsp", "label": label, "modules": mods, "oracle": msgs})
+
+
 def load_catalogue(name="catalogue.sam"):
     path = os.path.join(common.VERIF, "corpus", PROP, name)
     return open(path, encoding="utf-8").read() if os.path.exists(path) else None
@@ -795,6 +1005,8 @@ def run(ctx):
         check_svc_batch(ctx, batch, f"generated layouts seed={ctx.seed}", stats, max_pos)
         sdone += len(batch)
 
+    if not ctx.violations:
+        lsp_leg(ctx, stats)
     missing = sorted(k for k in PRODUCTIONS if k not in stats["node_hist"] and k != "E.MethodAccess")
     ctx.cov.update({
         "evaluations": done + wdone + sdone, "distinct_nontrivial": nontrivial,
@@ -805,6 +1017,9 @@ def run(ctx):
         "walk_modules_without_syntax_error": stats["walk_valid"], "walk_modules_with_syntax_error": stats["walk_syntax_error"],
         "walk_located_nodes_checked": stats["nodes"], "walk_node_kind_histogram": stats["node_hist"],
         "productions_never_reached": missing,
+        "lsp_projects": stats.get("lsp_projects", 0), "lsp_published_diagnostics": stats.get("lsp_diags", 0),
+        "lsp_related_locations": stats.get("lsp_related", 0), "lsp_related_locations_in_other_module": stats.get("lsp_related_cross", 0),
+        "lsp_position_queries": stats.get("lsp_queries", 0),
         "svc_query_histogram": stats["svc_hist"], "svc_error_free_modules": stats["svc_clean"],
         "svc_modules_with_errors": stats["svc_with_errors"], "svc_positions_per_module_cap": max_pos,
         "comment_attachments_checked": stats["node_hist"].get("comment", 0),
@@ -839,6 +1054,13 @@ def replay(ctx, path):
         for m in orc:
             print("ORACLE", m)
         return 1 if bad else 0
+    if rp.get("protocol") == "lsp":
+        from .c10 import build_cli
+        st = {k: 0 for k in ("lsp_diags", "lsp_related", "lsp_related_cross", "lsp_queries")}
+        msgs = lsp_project_check(ctx, build_cli(), rp["modules"], "replay", st, positions=400)
+        for m in msgs:
+            print("ORACLE", m)
+        return 1 if msgs else 0
     if rp.get("protocol") == "svc":
         r = run_svc([(rp["module"], rp["text"])], 100000, workers=1)[0]
         orc = [r] if r.startswith("<") else svc_oracle(rp["module"], rp["text"].encode(), r)
